@@ -46,6 +46,11 @@ func c16(c *q.Ctx) {
 	if xp != nil {
 		c.Guard(xp, q.Cond{Canon: "(i:BlockInterface.GetProposer(p2) == xpoa.(*xpoaSchedule).GetLocalLeader(p0.election,i:BlockInterface.GetTimestamp(p2),i:BlockInterface.GetHeight(p2),i:BlockInterface.GetConsensusStorage(p2)#0))", Sense: false}, q.ToSuccess(), q.Opt{})
 	}
+	// which historical validator set a block is judged against is the receiver's business: the height recorded in the
+	// block's own consensus storage (the rollback target) is honoured only in BFT mode, where the justify binds it
+	if lv := c.Fn("bcs/consensus/xpoa::(*xpoaSchedule).GetLocalValidates"); lv != nil {
+		c.OnlyUnder(lv, q.ToCall("ParseOldQCStorage"), []q.Cond{{Canon: "p0.enableBFT", Sense: true}}, "without BFT the producer cannot choose the validator set its own block is checked against")
+	}
 	ll := c.Fn("bcs/consensus/xpoa::(*xpoaSchedule).GetLocalLeader")
 	if ll != nil {
 		vs := "xpoa.(*xpoaSchedule).GetLocalValidates(p0,p1,p2,p3)"
@@ -107,6 +112,13 @@ func c16(c *q.Ctx) {
 		c.Guard(ip, q.Cond{Canon: "pow.SetCompact(p2)#1", Sense: true}, q.ToSuccess(), q.Opt{})
 		c.Guard(ip, q.Cond{Canon: "pow.SetCompact(p2)#2", Sense: true}, q.ToSuccess(), q.Opt{})
 		c.Effect(ip, q.Eff{Spec: "big::Int.SetBytes", Arg: 0, Glob: "p1", Why: "the number compared with the target is the block id", Rule: "K11"})
+		// whichever encoding is in force, `true` is reached only over the accepting edge of the FULL-WIDTH comparison of
+		// the hash with the expanded target (the compact form keeps 3 mantissa bytes: compared in that form, a hash
+		// just above the target is accepted)
+		btc := q.Cond{Canon: "p0.bitcoinFlag", Sense: true}
+		old := q.Cond{Canon: "p0.bitcoinFlag", Sense: false}
+		c.Guard(ip, q.Cond{Canon: "(1 == big.(*Int).Cmp(" + hash + ",pow.SetCompact(p2)#0))", Sense: true}, q.ToSuccess(), q.Opt{Entry: true, Unless: []q.Cond{old}})
+		c.Guard(ip, q.Cond{Canon: "(1 == big.(*Int).Cmp(" + hash + ",big.NewInt(1){Lsh(self,(256 - p2))}))", Sense: true}, q.ToSuccess(), q.Opt{Entry: true, Unless: []q.Cond{btc}})
 	}
 	// ---- forwarding
 	pc := c.Fn("kernel/consensus::(*PluggableConsensus).CheckMinerMatch")
